@@ -100,20 +100,33 @@ def oracle_inproc(prog, req, env=None, with_values=True, feed_seed=0):
 
 
 def run_fresh(ck, cases, hashseeds, tag):
-    """cases: [{"prog", "reqs", "salt"}]; one fresh interpreter per hash seed. Returns {seed: results}."""
+    """cases: [{"prog", "reqs", "salt"}]; one fresh interpreter per hash seed. Returns {seed: results}.
+
+    A worker that dies, or a case the worker could not run, is registered with ck.broken and left out
+    (never raised): results[seed][j] is None for such a case."""
     path = core.WORK / f"front-cases-{ck.pid}-{tag}-{ck.seed}.json"
     path.write_text(json.dumps(cases))
     out = {}
     for hs in hashseeds:
-        p = core.run_isolated(
-            f"from harness import front_worker as w; w.main({str(path)!r})",
-            env={"PYTHONHASHSEED": str(hs)},
-            timeout=600,
-        )
-        line = next((ln for ln in p.stdout.splitlines() if ln.startswith("RESULT ")), None)
-        if p.returncode != 0 or line is None:
-            raise RuntimeError(f"fresh-process worker failed (hash seed {hs}): {p.stderr[-1500:]}")
-        out[hs] = json.loads(line[len("RESULT "):])
+        try:
+            p = core.run_isolated(
+                f"from harness import front_worker as w; w.main({str(path)!r})",
+                env={"PYTHONHASHSEED": str(hs)},
+                timeout=900,
+            )
+            line = next((ln for ln in p.stdout.splitlines() if ln.startswith("RESULT ")), None)
+            if p.returncode != 0 or line is None:
+                ck.broken("correspondence", "fresh-process worker failed", f"hash seed {hs}: rc={p.returncode} {p.stderr[-600:]}")
+                continue
+            res = json.loads(line[len("RESULT "):])
+        except Exception as e:  # noqa: BLE001
+            ck.broken("correspondence", "fresh-process worker failed", f"hash seed {hs}: {type(e).__name__}: {e}")
+            continue
+        for j, r in enumerate(res):
+            if isinstance(r, dict) and "worker_error" in r:
+                ck.broken("correspondence", "fresh-process case not runnable", r["worker_error"])
+                res[j] = None
+        out[hs] = res
     return out
 
 
@@ -149,13 +162,16 @@ def model_request(prog, req, pi=0):
 def run(ck: core.Check):
     from translator import renames_ir
 
-    ck.cov["generated_renames_ir"] = renames_ir.generate()["ir"]
+    try:
+        ck.cov["generated_renames_ir"] = renames_ir.generate()["ir"]
+    except Exception as e:  # noqa: BLE001
+        ck.broken("translator", "translator/renames_ir.py could not read src/spox/_public.py", f"{type(e).__name__}: {e}")
     ck.lean(["SpoxModel.Props.C03"], audit="SpoxModel.Audit.C03")
     if ck.thorough:
         ck.leanchecker(["SpoxModel.Props.C03"])
 
     rng = ck.rng
-    n_prog = ck.pick(260, 2600)
+    n_prog = ck.pick(360, 3000)
     cases = []  # (prog, env, [reqs])
     for _ in range(n_prog):
         prog = lf.gen_program(rng)
@@ -176,7 +192,12 @@ def run(ck: core.Check):
     k = 0
     recent = []  # the last builds of this process: a history-dependent failure needs them to replay
     for prog, reqs in cases:
-        env = lf.realize(prog)
+        try:
+            env = lf.realize(prog)
+        except Exception as e:  # noqa: BLE001 - the public constructors refuse a well-typed program
+            ck.broken("correspondence", "program not constructible with the public constructors", f"{type(e).__name__}: {e}")
+            k += len(reqs)
+            continue
         stats["max_objs"] = max(stats["max_objs"], prog["n"])
         # hypothesis WF of discover_all_arguments_spec: every reference points to an older object
         for i_, o_ in enumerate(lf.to_objs(prog)):
@@ -234,8 +255,11 @@ def run(ck: core.Check):
                                   f"req={req} objs={lf.to_objs(prog)} model={m} real={real} names={names_after}")
             # leave no trace for the next request even if the code under test did (C12 judges that)
             for i, v in env.items():
-                if hasattr(v, "_rename"):
-                    v._rename(None)
+                try:
+                    if getattr(v, "_name", None) is not None:
+                        v._rename(None)
+                except Exception as e:  # noqa: BLE001
+                    ck.broken("correspondence", "Var._rename not observable (cannot reset names between requests)", str(e))
 
     # ---- fresh processes, several hash seeds: same judgement, plus run-to-run stability
     hashseeds = list(range(ck.pick(6, 32)))
@@ -250,7 +274,7 @@ def run(ck: core.Check):
     n_fresh = 0
     for hs, res in results.items():
         for c, rs in zip(fresh_cases, res):
-            for req, r in zip(c["reqs"], rs):
+            for req, r in zip(c["reqs"], rs or []):
                 n_fresh += 1
                 ck.count(None)
                 got = ("err", r["err"]) if "err" in r else ("ok", (r["inputs"], r["outputs"]))
@@ -298,6 +322,8 @@ def replay(ck: core.Check, doc) -> bool:
     res = run_fresh(ck, cases, case.get("hashseeds", [0, 1, 2, 3])[:8], "replay")
     for hs, rs in res.items():
         for one in rs:
+            if not one:
+                continue
             r = one[0]
             got = ("err", r["err"]) if "err" in r else ("ok", (r["inputs"], r["outputs"]))
             b = judge(prog, req, *got)
